@@ -1,5 +1,322 @@
-(** Property C19 - renderings (stub; replaced below) *)
+(** Property C19 - text, JSON and HTTP debug renderings report exactly what is in the frame.
+    Only property theorems, each closed by [exact], each followed by [Print Assumptions].
+
+    Model: Gen/Render.v ([text_multiline_data] = cantext.Marshal, [text_compact_data] = cantext.MarshalCompact /
+    MessageString / generated String(), [json_render_with uint_to_json] = canjson.Marshal (after fix F7),
+    [debug_message] / [debug_page] = candebug.appendMessage / ServeMessagesHTTP), all on the payload [d] of
+    m.Frame() ([text_compact m st = text_compact_data m (fr_data (frame_of m st))] etc.).
+    A rendering is a list of segments; [Lit b] is literal text, [FloatG bits] / [FloatF bits] stand for
+    strconv.AppendFloat(..,'g',-1,64) / FormatFloat(..,'f',-1,64) of the float64 with these bits,
+    [GoJSONString b] for encoding/json's encoding of the string b, [GoDuration ns] for time.Duration.String().
+    Readers: Descriptor/Signal.v [unmarshal_unsigned] / [unmarshal_signed] / [unmarshal_bool] (= the C01 reads,
+    Descriptor/SignalProofs.v), physical values: Descriptor/Physical.v [to_physical] (C09 model, Flocq binary64).
+    Printers: Gen/RenderNum.v [hex_u] (minimal lower-case hex), [dec_u]/[dec_s] (decimal) over Base/Dec.v, Hex.v.
+    [join sep blocks] = b1 ++ sep ++ b2 ++ ... ++ bn (Gen/RenderSpec.v). *)
 From Coq Require Import ZArith List Bool.
-From CanVerif Require Import Gen.Render.
-Theorem C19_stub : True. Proof. exact I. Qed.
-Print Assumptions C19_stub.
+From Flocq Require Import BinarySingleNaN.
+From CanVerif Require Import Base.Dec Base.Hex Can.Data Can.DataSpec.
+From CanVerif Require Import Descriptor.Signal Descriptor.SignalProofs Descriptor.Physical.
+From CanVerif Require Import Gen.Message Gen.RenderNum Gen.Render Gen.RenderSpec Gen.RenderProofs.
+Import ListNotations.
+Open Scope Z_scope.
+
+(** * Every signal of the descriptor appears exactly once, in descriptor order *)
+
+(** compact text: "{" b1 ", " b2 ... "}" with one block per signal of the descriptor *)
+Theorem C19_compact_every_signal_once_in_order : forall m d,
+  text_compact_data m d =
+  [Lit t_lbrace] ++ join [Lit t_comma_sp] (map (fun s => text_compact_signal s d) (msg_signals m)) ++ [Lit t_rbrace].
+Proof. exact text_compact_blocks. Qed.
+Print Assumptions C19_compact_every_signal_once_in_order.
+
+(** multi-line text: the message name, then newline + tab + block for every signal *)
+Theorem C19_multiline_every_signal_once_in_order : forall m d,
+  text_multiline_data m d =
+  Lit (msg_name m) :: concat (map (fun s => Lit t_nl_tab :: text_signal s d) (msg_signals m)).
+Proof. exact text_multiline_blocks. Qed.
+Print Assumptions C19_multiline_every_signal_once_in_order.
+
+(** JSON: "{" member "," member ... "}" with one member per signal; an error iff a member fails *)
+Theorem C19_json_every_signal_once_in_order : forall uj m d,
+  json_render_with uj m d =
+  match all_some (map (fun s => json_member uj s d) (msg_signals m)) with
+  | Some members => Some ([Lit t_lbrace] ++ join [Lit t_comma] members ++ [Lit t_rbrace])
+  | None => None
+  end.
+Proof. exact json_render_blocks. Qed.
+Print Assumptions C19_json_every_signal_once_in_order.
+
+(** debug page, one message: header lines, then the multi-line blocks separated by newlines *)
+Theorem C19_debug_every_signal_once_in_order : forall w m d,
+  debug_message w m d = debug_header w m ++ join [Lit t_nl] (map (fun s => text_signal s d) (msg_signals m)).
+Proof. exact debug_message_blocks. Qed.
+Print Assumptions C19_debug_every_signal_once_in_order.
+
+(** * Text blocks: raw value, physical value, unit, value description *)
+
+(** unsigned multi-bit signal:  name ": " g(ToPhysical(float64 u)) unit " (" "0x" hex(u) ")" [" " description]
+    with u the unsigned read of the signal's layout *)
+Theorem C19_text_unsigned : forall s d,
+  s_length s <> 1 -> s_signed s = false ->
+  let u := unmarshal_unsigned s d in
+  text_signal s d =
+  [Lit (s_name s); Lit t_colon_sp; FloatG (bits_of_f64 (to_physical s (f64_of_Z u))); Lit (s_unit s);
+   Lit t_open_paren; Lit t_0x; Lit (hex_u u); Lit t_close_paren] ++ vd_suffix s d.
+Proof. exact text_signal_unsigned. Qed.
+Print Assumptions C19_text_unsigned.
+
+(** signed multi-bit signal: the raw value is printed as its 64-bit two's complement in hex *)
+Theorem C19_text_signed : forall s d,
+  s_length s <> 1 -> s_signed s = true ->
+  let v := unmarshal_signed s d in
+  text_signal s d =
+  [Lit (s_name s); Lit t_colon_sp; FloatG (bits_of_f64 (to_physical s (f64_of_Z v))); Lit (s_unit s);
+   Lit t_open_paren; Lit t_0x; Lit (hex_u (v mod 2 ^ 64)); Lit t_close_paren] ++ vd_suffix s d.
+Proof. exact text_signal_signed. Qed.
+Print Assumptions C19_text_signed.
+
+(** 1-bit signal: "true"/"false" (no raw value and NO unit is printed for these), then the description *)
+Theorem C19_text_bool : forall s d,
+  s_length s = 1 ->
+  text_signal s d = [Lit (s_name s); Lit t_colon_sp; Lit (bool_text (unmarshal_bool s d))] ++ vd_suffix s d.
+Proof. exact text_signal_bool. Qed.
+Print Assumptions C19_text_bool.
+
+(** the printed hex parses back (strconv.ParseUint base 16, 64 bits) to the value read, full range *)
+Theorem C19_text_raw_unsigned_parses_back : forall s d,
+  1 <= s_length s <= 64 ->
+  let u := unmarshal_unsigned s d in
+  parse_uint (hex_u u) 16 64 = PU_ok u /\ 0 <= u < 2 ^ s_length s.
+Proof. exact text_raw_unsigned_parse. Qed.
+Print Assumptions C19_text_raw_unsigned_parses_back.
+
+Theorem C19_text_raw_signed_parses_back : forall s d,
+  1 <= s_length s <= 64 ->
+  let v := unmarshal_signed s d in
+  parse_uint (hex_u (v mod 2 ^ 64)) 16 64 = PU_ok (v mod 2 ^ 64) /\
+  i64_of_u64 (v mod 2 ^ 64) = v /\
+  v = sext (s_length s) (unmarshal_unsigned s d).
+Proof. exact text_raw_signed_parse. Qed.
+Print Assumptions C19_text_raw_signed_parses_back.
+
+(** in the documented bit numbering (C01): bit i of the number the hex text denotes is payload bit
+    [sig_pos s i] for i < length and 0 above *)
+Theorem C19_text_raw_is_the_payload_bits : forall s d i,
+  valid_data d -> sig_fits s -> 0 <= i ->
+  Z.testbit (hex_value (hex_u (unmarshal_unsigned s d))) i = (i <? s_length s) && pbit d (sig_pos s i).
+Proof. exact text_raw_unsigned_bits. Qed.
+Print Assumptions C19_text_raw_is_the_payload_bits.
+
+(** compact block: a matching value description replaces value AND unit; otherwise value + unit *)
+Theorem C19_compact_block : forall s d,
+  text_compact_signal s d =
+  [Lit (s_name s); Lit t_colon_sp] ++
+  match unmarshal_value_description s d with
+  | Some t => [Lit t]
+  | None =>
+    if s_length s =? 1 then [Lit (bool_text (unmarshal_bool s d))]
+    else [FloatG (bits_of_f64 (to_physical s (f64_of_Z
+            (if s_signed s then unmarshal_signed s d else unmarshal_unsigned s d)))); Lit (s_unit s)]
+  end.
+Proof. exact text_compact_signal_spec. Qed.
+Print Assumptions C19_compact_block.
+
+(** * Value descriptions: shown iff one is defined for the value read *)
+(** the key looked up is the signed read, or the unsigned read converted to int64 *)
+Theorem C19_value_description_lookup : forall s d,
+  unmarshal_value_description s d =
+  value_description (s_value_descriptions s)
+    (if s_signed s then unmarshal_signed s d else i64_of_u64 (unmarshal_unsigned s d)).
+Proof. exact unmarshal_value_description_spec. Qed.
+Print Assumptions C19_value_description_lookup.
+
+Theorem C19_description_suffix : forall s d,
+  vd_suffix s d =
+  match unmarshal_value_description s d with Some t => [Lit t_space; Lit t] | None => [] end.
+Proof. reflexivity. Qed.
+Print Assumptions C19_description_suffix.
+
+(** defined (values pairwise distinct, DESIGN.md 4.3) => the text of that definition is returned *)
+Theorem C19_value_description_defined : forall vds vd,
+  NoDup (map vdesc_value vds) -> In vd vds -> value_description vds (vdesc_value vd) = Some (vdesc_text vd).
+Proof. exact value_description_in. Qed.
+Print Assumptions C19_value_description_defined.
+
+(** not defined <=> nothing is returned *)
+Theorem C19_value_description_undefined : forall vds v,
+  value_description vds v = None <-> forall vd, In vd vds -> vdesc_value vd <> v.
+Proof. exact value_description_none. Qed.
+Print Assumptions C19_value_description_undefined.
+
+(** * JSON members *)
+(** unsigned multi-bit signal: Raw = decimal of the unsigned read (AS UNSIGNED, up to 2^64-1),
+    Physical = ToPhysical(float64 u) *)
+Theorem C19_json_unsigned : forall s d,
+  s_length s <> 1 -> s_signed s = false ->
+  let u := unmarshal_unsigned s d in
+  json_signal_value uint_to_json s d =
+  (dec_u u, to_physical s (f64_of_Z u), value_description (s_value_descriptions s) (i64_of_u64 u)).
+Proof. intros s d Hl Hs. rewrite (json_value_unsigned s d Hl Hs). unfold vd_key. rewrite Hs. reflexivity. Qed.
+Print Assumptions C19_json_unsigned.
+
+Theorem C19_json_signed : forall uj s d,
+  s_length s <> 1 -> s_signed s = true ->
+  let v := unmarshal_signed s d in
+  json_signal_value uj s d =
+  (dec_s v, to_physical s (f64_of_Z v), value_description (s_value_descriptions s) v).
+Proof. intros uj s d Hl Hs. rewrite (json_value_signed uj s d Hl Hs). unfold vd_key. rewrite Hs. reflexivity. Qed.
+Print Assumptions C19_json_signed.
+
+Theorem C19_json_bool : forall uj s d,
+  s_length s = 1 ->
+  let v := if unmarshal_bool s d then 1 else 0 in
+  json_signal_value uj s d =
+  (dec_u v, to_physical s (f64_of_Z v), value_description (s_value_descriptions s) v).
+Proof. exact json_value_bool. Qed.
+Print Assumptions C19_json_bool.
+
+(** the decimal text parses back (ParseUint base 10 / Atoi) to the value read, over the full range *)
+Theorem C19_json_raw_unsigned_parses_back : forall s d,
+  1 <= s_length s <= 64 ->
+  parse_uint (dec_u (unmarshal_unsigned s d)) 10 64 = PU_ok (unmarshal_unsigned s d).
+Proof. exact json_raw_unsigned_parse. Qed.
+Print Assumptions C19_json_raw_unsigned_parses_back.
+
+Theorem C19_json_raw_signed_parses_back : forall s d,
+  1 <= s_length s <= 64 -> atoi (dec_s (unmarshal_signed s d)) = Some (unmarshal_signed s d).
+Proof. exact json_raw_signed_parse. Qed.
+Print Assumptions C19_json_raw_signed_parses_back.
+
+(** the object of one signal: Raw, Physical, Unit iff the unit is non-empty, Description iff a
+    (non-empty) description is defined for the value; an error iff the physical value is not finite *)
+Theorem C19_json_object : forall uj s d,
+  json_signal_object uj s d =
+  let '(raw, phys, desc) := json_signal_value uj s d in
+  if is_finite phys then
+    Some ([Lit t_raw_key; Lit raw; Lit t_physical_key; FloatF (bits_of_f64 phys)] ++
+          (match s_unit s with [] => [] | _ => [Lit t_unit_key; GoJSONString (s_unit s)] end) ++
+          (match desc with
+           | Some (c :: t) => [Lit t_description_key; GoJSONString (c :: t)]
+           | _ => []
+           end) ++ [Lit t_rbrace])
+  else None.
+Proof. exact json_signal_object_spec. Qed.
+Print Assumptions C19_json_object.
+
+Theorem C19_json_error_iff_not_finite : forall uj m d,
+  (exists segs, json_render_with uj m d = Some segs) <->
+  Forall (fun s => is_finite (snd (fst (json_signal_value uj s d))) = true) (msg_signals m).
+Proof. exact json_render_some_iff. Qed.
+Print Assumptions C19_json_error_iff_not_finite.
+
+(** * The JSON rendering is valid JSON
+    [rF], [rJ] are the texts of strconv.FormatFloat(f,'f',-1,64) and of encoding/json's string encoder;
+    the two hypotheses are exactly what these library routines are trusted for (checked on every
+    rendered value by the correspondence run). [json_value] is the RFC 8259 grammar (objects, strings,
+    numbers, no whitespace) of Gen/RenderSpec.v; signal names must be printable without escaping
+    (canjson appends them unescaped; every DBC identifier qualifies). *)
+Theorem C19_json_valid : forall (rG rF : Z -> bytes) (rJ : bytes -> bytes) (rD : Z -> bytes),
+  (forall p : f64, is_finite p = true -> json_number (rF (bits_of_f64 p))) ->
+  (forall b, json_string (rJ b)) ->
+  forall m d segs,
+  Forall (fun s => json_plain_name (s_name s)) (msg_signals m) ->
+  json_render_with uint_to_json m d = Some segs ->
+  json_value (render rG rF rJ rD segs).
+Proof.
+  intros rG rF rJ rD HF HJ m d segs Hn H.
+  exact (json_render_valid rG rF rJ rD HF HJ uint_to_json m d segs uint_to_json_number Hn H).
+Qed.
+Print Assumptions C19_json_valid.
+
+(** * candebug: which messages a page shows *)
+(** the first message named like the last element of the URL path, alone ... *)
+Theorem C19_debug_page_single : forall path pre e post,
+  (forall x, In x pre -> msg_name (entry_message x) <> path_base path) ->
+  msg_name (entry_message e) = path_base path ->
+  debug_page path (pre ++ e :: post) = debug_message (fst (fst e)) (snd (fst e)) (snd e).
+Proof. exact debug_page_single. Qed.
+Print Assumptions C19_debug_page_single.
+
+(** ... all messages in the order given, separated by two empty lines, when no name matches *)
+Theorem C19_debug_page_all : forall path es,
+  (forall e, In e es -> msg_name (entry_message e) <> path_base path) ->
+  debug_page path es =
+  join [Lit t_nl3] (map (fun e : entry => debug_message (fst (fst e)) (snd (fst e)) (snd e)) es).
+Proof. exact debug_page_all. Qed.
+Print Assumptions C19_debug_page_all.
+
+(** the last path element: the text after the last slash, trailing slashes ignored *)
+Theorem C19_path_base : forall dir name k,
+  name <> [] -> ~ In 47 name -> path_base (dir ++ 47 :: name ++ repeat 47 k) = name.
+Proof. exact path_base_last. Qed.
+Print Assumptions C19_path_base.
+
+(** * F7 (DESIGN.md section 6): the pre-fix uintToJSON = strconv.Itoa(int(u)) violates the raw-value clause:
+    the 64-bit unsigned signal at bit 0 with payload ff..ff holds 2^64-1 and was printed as "-1",
+    which is not the decimal of the value and does not parse as an unsigned number; the fixed
+    formatter prints 18446744073709551615 *)
+Theorem C19_json_unsigned_refuted :
+  s_signed f7_signal = false /\ s_length f7_signal = 64 /\ valid_data f7_data /\
+  unmarshal_unsigned f7_signal f7_data = 2 ^ 64 - 1 /\
+  fst (fst (json_signal_value uint_to_json_old f7_signal f7_data)) = [45; 49] /\
+  fst (fst (json_signal_value uint_to_json_old f7_signal f7_data)) <> dec_u (unmarshal_unsigned f7_signal f7_data) /\
+  parse_uint (fst (fst (json_signal_value uint_to_json_old f7_signal f7_data))) 10 64 = PU_syntax /\
+  fst (fst (json_signal_value uint_to_json f7_signal f7_data)) = dec_u (2 ^ 64 - 1).
+Proof. exact json_unsigned_refuted. Qed.
+
+(** * Non-vacuity: a message with a scaled unsigned byte (unit, value description), a signed
+    12-bit big-endian signal and a flag; every hypothesis used above holds and the renderings are the
+    expected segment lists; the hypotheses of C19_json_valid are satisfiable *)
+Definition ex_sig_a : signal :=
+  {| s_name := [65]; s_start := 0; s_length := 8; s_big_endian := false; s_signed := false; s_float := false;
+     s_multiplexer := false; s_multiplexed := false; s_mux_value := 0;
+     s_offset := 0; s_scale := 0x3fe0000000000000 (* 0.5 *); s_min := 0; s_max := 0;
+     s_unit := [86]; s_description := []; s_value_descriptions := [{| vdesc_value := 255; vdesc_text := [79; 110] |}];
+     s_receivers := []; s_default := 0 |}.
+Definition ex_sig_b : signal :=
+  {| s_name := [66]; s_start := 15; s_length := 12; s_big_endian := true; s_signed := true; s_float := false;
+     s_multiplexer := false; s_multiplexed := false; s_mux_value := 0;
+     s_offset := 0; s_scale := 0x3ff0000000000000 (* 1 *); s_min := 0; s_max := 0;
+     s_unit := []; s_description := []; s_value_descriptions := []; s_receivers := []; s_default := 0 |}.
+Definition ex_sig_c : signal :=
+  {| s_name := [67]; s_start := 63; s_length := 1; s_big_endian := false; s_signed := false; s_float := false;
+     s_multiplexer := false; s_multiplexed := false; s_mux_value := 0;
+     s_offset := 0; s_scale := 0x3ff0000000000000; s_min := 0; s_max := 0;
+     s_unit := [37]; s_description := []; s_value_descriptions := []; s_receivers := []; s_default := 0 |}.
+Definition ex_msg : message :=
+  {| msg_name := [77]; msg_id := 0x123; msg_extended := false; msg_length := 8; msg_send_type := SendCyclic;
+     msg_description := []; msg_signals := [ex_sig_a; ex_sig_b; ex_sig_c]; msg_sender := [78];
+     msg_cycle_time := 100000000; msg_delay_time := 0 |}.
+Definition ex_data : data := [255; 0x80; 0x10; 0; 0; 0; 0; 0x80].
+
+Example C19_nonvacuous :
+  valid_data ex_data /\ sig_fits ex_sig_a /\ sig_fits ex_sig_b /\
+  Forall (fun s => json_plain_name (s_name s)) (msg_signals ex_msg) /\
+  unmarshal_unsigned ex_sig_a ex_data = 255 /\ unmarshal_signed ex_sig_b ex_data = -2047 /\
+  text_compact_data ex_msg ex_data =
+    [Lit [123]; Lit [65]; Lit [58; 32]; Lit [79; 110]; Lit [44; 32];
+     Lit [66]; Lit [58; 32]; FloatG 0xc09ffc0000000000 (* -2047 *); Lit []; Lit [44; 32];
+     Lit [67]; Lit [58; 32]; Lit [116; 114; 117; 101]; Lit [125]] /\
+  text_signal ex_sig_b ex_data =
+    [Lit [66]; Lit [58; 32]; FloatG 0xc09ffc0000000000; Lit []; Lit [32; 40]; Lit [48; 120];
+     Lit [102; 102; 102; 102; 102; 102; 102; 102; 102; 102; 102; 102; 102; 56; 48; 49] (* fffffffffffff801 *); Lit [41]] /\
+  (exists segs, json_render_with uint_to_json ex_msg ex_data = Some segs /\
+     nth 3 segs (Lit []) = Lit t_quote_colon /\ nth 5 segs (Lit []) = Lit [50; 53; 53] (* 255 *) /\
+     nth 7 segs (Lit []) = FloatF 0x405fe00000000000 (* 127.5 *) /\ nth 9 segs (Lit []) = GoJSONString [86]) /\
+  (exists (rF : Z -> bytes) (rJ : bytes -> bytes),
+     (forall p : f64, is_finite p = true -> json_number (rF (bits_of_f64 p))) /\ (forall b, json_string (rJ b))).
+Proof.
+  split; [apply Can.DataProofs.valid_datab_spec; vm_compute; reflexivity|].
+  split; [vm_compute; repeat split; discriminate|].
+  split; [vm_compute; repeat split; discriminate|].
+  split; [repeat constructor; vm_compute; try discriminate; intros E; discriminate E|].
+  split; [vm_compute; reflexivity|]. split; [vm_compute; reflexivity|].
+  split; [vm_compute; reflexivity|]. split; [vm_compute; reflexivity|].
+  split.
+  - eexists. split; [vm_compute; reflexivity|]. repeat split.
+  - exists (fun _ => [48]), (fun _ => [34; 34]). split.
+    + intros _ _. exists [], [48], [], [].
+      split; [reflexivity|]. split; [left; reflexivity|]. split; [left; reflexivity|].
+      split; left; reflexivity.
+    + intros _. exists []. split; [reflexivity|constructor].
+Qed.
